@@ -33,7 +33,11 @@ LEVEL_TEXT = ('Partial. Coq theorems over R about the energy kernels re-translat
               'unconditionally for lss_R / pw_R. NOT proved: the differentiability hypotheses of the Kirchhoff theorems at a general SPD '
               'argument (Daleckii-Krein) for the spectral functions; Kirchhoff '
               'symmetry of the damaged phase-field model (kink of the volumetric split at det F = 1); that eigen_sym33_unit meets the '
-              'eigen-solver contract in binary64 (C12) -- these are tested on the implementation (L2).')
+              'eigen-solver contract in binary64 (C12) -- these are tested on the implementation (L2).  The L2 invariance streams evaluate '
+              'single compiled calls AND compiled batches jit(vmap); states with two or three equal principal stretches (also as loading '
+              'steps of the state updates) are checked inside batches at the same tolerance as everywhere else: the findings EIGVMAP / '
+              'EIGVMAP-SH (batched eigen_sym33_unit lost orthogonality at double eigenvalues) were repaired in /repo e63b801, no longer '
+              'excuse anything, and their witnesses are replayed (batch vs single compiled call, rotated orbit) on every run.')
 TECHNIQUE = 'Coq proof (Reals + Coquelicot + nsatz) over kernels regenerated from the Python AST; vm_compute/PrimFloat correspondence'
 GEN = ['Math', 'TensorMath', 'LinearElastic', 'Neohookean', 'Gent', 'J2Elastic', 'HyperViscoelastic', 'MultiBranchHyperViscoelastic',
        'PhaseFieldThreshold']
@@ -73,7 +77,8 @@ ASSUMPTIONS = ['exact real arithmetic in theorems',
 RULE = ('factory histories: for every factory and option, model 1 is created, the caller\'s dictionary is edited and model 2 created, then both are '
         'evaluated for the first time and compared with freshly created models on private copies + objectivity/isotropy/rest predicates; '
         'inputs: seeded displacement gradients H = R1 diag(stretches) R2 - I with strain magnitude over 1e-6..0.5 (several decades), '
-        'principal stretches distinct / two equal / three equal (dilation) / uniaxial along an in-plane axis / in-plane block form, '
+        'principal stretches distinct / two equal / three equal (dilation) / uniaxial along an in-plane axis / in-plane block form '
+        '(none of them skipped or down-weighted in compiled batches), '
         'det F > 0; rotations from random unit quaternions and in-plane rotations; a case is non-trivial when H != 0 and the rotation '
         'is not the identity; distinct = distinct (model, H, Q) tuples')
 IMPORTS = ['From OV.gen Require Import Gen_TensorMath Gen_LinearElastic Gen_Neohookean Gen_Gent Gen_J2Elastic Gen_HyperViscoelastic '
@@ -367,9 +372,10 @@ def check_state_invariance(ctx, cases, batch):
                 G2, _ = gen_H(r)
                 T2 = onp.eye(3) + 0.2 * onp.array(G2) / max(fro(G2), 1e-30)
                 st = onp.hstack(((T / onp.cbrt(onp.linalg.det(T))).ravel(), onp.eye(3).ravel(), (T2 / onp.cbrt(onp.linalg.det(T2))).ravel()))
-            H1, _ = gen_H(r)
-            while stretch_gap(H1) < 1e-3 * max(fro(H1), 1e-30):
-                H1, _ = gen_H(r)
+            # the loading step: every deformation kind, INCLUDING two / three equal principal stretches (until /repo e63b801 such steps
+            # were redrawn because of the then open finding EIGVMAP; they are now checked at the normal tolerance)
+            H1, k1 = gen_H(r)
+            ctx.count('state_update_loading_step_%s' % ('degenerate' if stretch_gap(H1) <= 1e-9 else 'distinct'))
             H1 = (onp.array(H1) * (0.15 / max(fro(H1), 1e-30) if fro(H1) < 0.15 else 1.0)).tolist()     # a loading step that does something
             Hs.append(H); Qs.append(Q); H1s.append(H1); sts.append(st); kinds.append(kind)
         Hs_, H1s_, sts_ = np.array(Hs), np.array(H1s), np.array(sts)
@@ -973,9 +979,9 @@ def l1_run(ctx, cases):
 # ----------------------------------------------------------------------------- driver hooks
 
 def _report(ctx, fails):
-    # The cap of 40 reported failures must not be consumed by failures that are exactly an open known finding (the driver drops
-    # those afterwards): with the thorough budget the EIGVMAP family alone produces more than 40, which used to mask every fresh
-    # failure of the later streams.  Fresh failures are reported first.
+    # The cap of 40 reported failures must not be consumed by failures that are exactly an OPEN known finding (the driver drops
+    # those afterwards).  C08 has no open finding at present (EIGVMAP / EIGVMAP-SH repaired in /repo e63b801: matches_finding excuses
+    # nothing for them), so every failure is fresh; the split is kept for future open findings.  Fresh failures are reported first.
     known = [k for k in C.load_known_findings() if k['property'] == ID and k['status'] == 'open']
     fresh, old = [], []
     for f in fails:
@@ -1052,117 +1058,93 @@ def stretch_gap(H):
     return float(min(w[1] - w[0], w[2] - w[1]) / max(abs(w[2]), 1e-300))
 
 
+WITNESS_ROTATIONS = (
+    # fixed proper rotations (unit quaternions with rational components) used when a witness does not carry its own
+    [[-1.0 / 3, 2.0 / 3, 2.0 / 3], [2.0 / 3, -1.0 / 3, 2.0 / 3], [2.0 / 3, 2.0 / 3, -1.0 / 3]],
+    [[0.36, 0.48, -0.8], [-0.8, 0.6, 0.0], [0.48, 0.64, 0.6]],
+    [[0.0, -1.0, 0.0], [1.0, 0.0, 0.0], [0.0, 0.0, 1.0]],
+)
+
+
+def witness_recurs(ctx, model, H, Qs):
+    """Replay of a (repaired) batch finding: the witness state H and its rotated images Q F, F Q (Q in Qs), evaluated inside compiled
+    batches jit(vmap) of size 2 (two copies), of size 3 and of the whole orbit, against the same states as single compiled calls.
+    A recurrence is: a batched energy differs from the single compiled call of the SAME state, or the batched energies of the orbit are
+    not equal (objectivity / isotropy), or the batched gradient differs from the single one / its Kirchhoff stress is not symmetric --
+    all at the NORMAL tolerances of check_invariance (tol_energy; 1e-13 * 4 E (1+s)^2 for stresses).  -> list of descriptions."""
+    import jax
+    import jax.numpy as np
+    import numpy as onp
+    md = models()[model]
+    if 'vf' not in md:
+        md['vf'] = jax.jit(jax.vmap(md['f']))
+        md['vg'] = jax.jit(jax.vmap(jax.grad(md['f'])))
+    orbit = [('the witness state', H)]
+    for k, Q in enumerate(Qs):
+        orbit.append(('superposed rotation %d' % k, rotL(Q, H)))
+        orbit.append(('rotated reference %d' % k, rotR(Q, H)))
+    singles = [float(md['jf'](np.array(h))) for _, h in orbit]
+    gsingle = onp.array(md['jg'](np.array(H)))
+    e0 = singles[0]
+    t = tol_energy(H, e0)
+    ts = 1e-13 * 4 * E_MOD * (1 + fro(H)) ** 2
+    bad = []
+    batches = [[0, 0], [0, 1, 2], list(range(len(orbit)))] + [[k, 0] for k in range(1, len(orbit))]
+    for idx in batches:
+        Hb = np.array([orbit[i][1] for i in idx])
+        eb = onp.array(md['vf'](Hb))
+        ctx.count('finding_witness_replays', len(idx))
+        for j, i in enumerate(idx):
+            if not abs(float(eb[j]) - singles[i]) <= t:
+                bad.append('%s: %s inside a compiled batch of %d has energy %r, as a single compiled call %r (tol %.3g)'
+                           % (model, orbit[i][0], len(idx), float(eb[j]), singles[i], t))
+            if not abs(float(eb[j]) - e0) <= t:
+                bad.append('%s: %s inside a compiled batch of %d has energy %r, the unrotated state %r (tol %.3g)'
+                           % (model, orbit[i][0], len(idx), float(eb[j]), e0, t))
+        if 0 in idx and len(idx) <= 3:          # stresses in the batches of 2 and 3 (one compilation per batch size)
+            j = idx.index(0)
+            P = onp.array(md['vg'](Hb))[j]
+            F = onp.array(H) + onp.eye(3)
+            tau = P @ F.T
+            dg, asym = float(onp.abs(P - gsingle).max()), float(onp.abs(tau - tau.T).max())
+            if not (onp.isfinite(P).all() and dg <= ts and asym <= ts):
+                bad.append('%s: the stress dW/dH of the witness state inside a compiled batch of %d differs from the single compiled call by %.3g, '
+                           'Kirchhoff asymmetry %.3g (tol %.3g)' % (model, len(idx), dg, asym, ts))
+    for i in range(1, len(orbit)):
+        if not abs(singles[i] - e0) <= t:
+            bad.append('%s: %s as a single compiled call has energy %r, the unrotated state %r (tol %.3g)' % (model, orbit[i][0], singles[i], e0, t))
+    return bad
+
+
 def finding_fails(ctx, f):
     w = f['witness']
     if f['id'] == 'F4':
         # fixed in /repo 60fe5f7: does the rest state of the J2 'seth hill' option still have non-zero energy or stress?
         return bool(check_rest(ctx, names=[w['model']]))
-    if f['id'] == 'EIGVMAP-SH':
-        import jax
-        import jax.numpy as np
-        md = models()[w['model']]
-        for Hm in (w['H'], rotR(w['Q'], w['H'])):
-            eb = float(jax.jit(jax.vmap(md['f']))(np.array([Hm, Hm]))[0])
-            es = float(md['jf'](np.array(Hm)))
-            if abs(eb - es) > 1e-6 * abs(es):
-                return True
-        return False
-    if f['id'] == 'EIGVMAP':
-        # the same state evaluated in a compiled batch of two and as a single compiled call
-        import jax
-        import jax.numpy as np
-        md = models()[w['model']]
-        H = np.array(w['H'])
-        eb = float(jax.jit(jax.vmap(md['f']))(np.array([w['H'], w['H']]))[0])
-        es = float(md['jf'](H))
-        return abs(eb - es) > 1e-10 * abs(es)
+    if f['id'] in ('EIGVMAP', 'EIGVMAP-SH'):
+        # fixed in /repo e63b801 (eigen_sym33_non_unit evaluates the in-plane direction once): every witness (doubly degenerate F^T F)
+        # is replayed on every run inside compiled batches against single compiled calls, at the normal tolerances
+        Qs = ([w['Q']] if 'Q' in w else []) + list(WITNESS_ROTATIONS)
+        bad = []
+        for Hw in [w['H']] + [x['H'] for x in w.get('more', [])]:
+            bad += witness_recurs(ctx, w['model'], Hw, Qs)
+        for b in bad[:6]:
+            ctx.log('finding %s recurs: %s' % (f['id'], b))
+        return bool(bad)
     return False
 
 
-def _single_call_invariant(c):
-    """the pair (H, rotated H) of a failed batched invariance check, re-evaluated as single compiled calls: invariant within tolerance?"""
-    import jax.numpy as np
-    md = models()[c['model']]
-    H, Q = c['H'], c['Q']
-    Hx = rotL(Q, H) if c['check'] == 'objectivity' else rotR(Q, H)
-    e0 = float(md['jf'](np.array(H)))
-    e1 = float(md['jf'](np.array(Hx)))
-    return abs(e1 - e0) <= tol_energy(H, e0)
-
-
-def _elastic_gap(c):
-    """smallest relative eigenvalue gap of the trial elastic right Cauchy-Green tensors (F T^-1)^T (F T^-1), T = each state tensor"""
-    import numpy as onp
-    st = onp.array(c['state'], dtype=float)
-    Ts = [st[1:10]] if c['model'].startswith('J2Plastic') else [st[9 * b:9 * b + 9] for b in range(len(st) // 9)]
-    F = onp.array(c['H'], dtype=float) + onp.eye(3)
-    g = 1.0
-    for T in Ts:
-        Fe = F @ onp.linalg.inv(T.reshape(3, 3))
-        w = onp.linalg.eigvalsh(Fe.T @ Fe)
-        g = min(g, float(min(w[1] - w[0], w[2] - w[1]) / max(abs(w[2]), 1e-300)))
-    return g
-
-
-def _single_call_invariant_state(c):
-    """a failed batched invariance check with a non-virgin state, re-evaluated as single compiled calls (same states)"""
-    import jax.numpy as np
-    md = models()[c['model']]
-    H, Q, st = c['H'], c['Q'], c['state']
-    if c['check'] == 'objectivity':
-        Hx, stx = rotL(Q, H), st
-    else:
-        Hx, stx = rotR(Q, H), rot_state(c['model'], st, Q)
-    e0 = float(md['jm'](np.array(H), np.array(st), DT))
-    e1 = float(md['jm'](np.array(Hx), np.array(stx), DT))
-    return abs(e1 - e0) <= 4 * tol_energy(H, e0)
-
-
 def matches_finding(fl, f):
-    """EIGVMAP: energy of a model that goes through eigen_sym33_unit, evaluated inside a compiled batch, at a state with two
-    (numerically) equal principal stretches, off by a SMALL relative amount (<= 1e-4); anything else is a fresh violation.
-    F4 (fixed): rest-state energy (= 18 kappa) or NaN rest-state stress of J2 'seth hill'."""
+    """Only OPEN findings excuse a failure, and C08 has none: EIGVMAP / EIGVMAP-SH (energies through eigen_sym33_unit inside compiled
+    batches at doubly degenerate states) were repaired in /repo e63b801 and F4 in 60fe5f7, so for them nothing matches -- a batched energy
+    that loses invariance at a degenerate state is a violation like any other.  The F4 signature (rest-state energy 18 kappa / NaN
+    rest-state stress of J2 'seth hill') is kept for the record of what the regression looks like."""
+    if f.get('status') != 'open':
+        return False
     c = fl.get('case') or {}
     w = f['witness']
-    if f['id'] == 'EIGVMAP-SH':
-        # only the Seth-Hill J2 model, only in compiled batches, only at doubly degenerate F^T F, virgin state, error <= 5e-2 relative
-        virgin = ('state' not in c) or all(float(x) == 0.0 for x in c['state'])      # J2 virgin state: (eqps, Ep) = 0
-        if not (c.get('batch') and c.get('model') == 'J2Plastic/seth hill' and c.get('check') in ('objectivity', 'isotropy', 'kirchhoff')
-                and virgin and not c.get('state_update')):
-            return False
-        if stretch_gap(c['H']) > 1e-9:
-            return False
-        if c['check'] == 'kirchhoff':
-            return c.get('value', 1.0) <= 1e-3 * E_MOD
-        if abs(c['e1'] - c['e0']) <= 5e-2 * abs(c['e0']):
-            return True
-        # At small strains the same defect gives a small ABSOLUTE but large relative energy error (the strain is a difference of nearly
-        # equal powers, the batched eigenvectors are off by ~1e-3).  Such a failure is this finding only if it is demonstrably
-        # batch-specific: the very same pair of states evaluated as single compiled calls satisfies the invariance to the usual
-        # tolerance, and the absolute error is below 1e-4 of the modulus (batched eigenvector errors reach O(1e-2) at exact degeneracy, C12 EIGVMAP).
-        if abs(c['e1'] - c['e0']) <= 1e-4 * E_MOD and _single_call_invariant(c):
-            return True
-        # The same defect also occurs with a LARGE error at moderate strain (observed: strain 0.03, batched energy 0.016877 against
-        # 0.012446 for the same state as a single compiled call, i.e. +36%; VERIF_SEED=12).  Accepted as this finding only by
-        # mechanism: doubly degenerate F^T F (checked above), virgin state, compiled batch, and the very same pair of states evaluated
-        # as single compiled calls is invariant to the usual tolerance; the batched error must stay below 100% of the energy.
-        return abs(c['e1'] - c['e0']) <= max(abs(c['e0']), abs(c['e1'])) and _single_call_invariant(c)
-    if f['id'] == 'EIGVMAP':
-        if not (c.get('batch') and c.get('model') in SPECTRAL and c.get('check') in ('objectivity', 'isotropy', 'kirchhoff')):
-            return False
-        if 'state' in c and c.get('check') in ('objectivity', 'isotropy') and not c.get('state_update') and c.get('model') in STATEFUL \
-                and c['model'] != 'J2Plastic/seth hill':
-            # non-virgin internal state: the spectral function is applied to the TRIAL ELASTIC C = (F Fv^-1)^T (F Fv^-1), so that is
-            # where the double degeneracy must be (observed in the thorough tier: dilation + Fv = diag(a,a,b), batched energy off by
-            # 1.75e-4 relative in a batch of 80, exact in a batch of 2 and as single compiled calls).  By mechanism: degenerate trial
-            # elastic C (before or after the rotation), compiled batch, the same pair with the same states as single compiled calls is
-            # invariant to the usual tolerance, relative error <= 1e-3.
-            return (_elastic_gap(c) <= 1e-9 and abs(c['e1'] - c['e0']) <= 1e-3 * abs(c['e0']) and _single_call_invariant_state(c))
-        if stretch_gap(c['H']) > 1e-9:
-            return False
-        if c['check'] == 'kirchhoff':
-            return c.get('value', 1.0) <= 1e-3 * E_MOD
-        return abs(c['e1'] - c['e0']) <= 1e-4 * abs(c['e0'])
+    if f['id'] in ('EIGVMAP', 'EIGVMAP-SH'):
+        return False
     if c.get('model') != w['model']:
         return False
     if c.get('check') == 'rest_energy':
